@@ -1,3 +1,4 @@
+import FluentProofs.ConstTieResolver
 import FluentProofs.ResolverRefineTop
 import FluentProofs.Props.C11
 /-!
